@@ -1,6 +1,7 @@
 /-
   C15 — context-sensitive parsing delivers the nearest context and honours configuration.
 -/
+import ChumskyModel.Proofs.Lemmas.ExtAll
 import ChumskyModel.Proofs.Lemmas.Top
 set_option linter.unusedSimpArgs false
 namespace Chumsky
@@ -119,6 +120,20 @@ example :
       | _ => (none, 99)) = (some (.cons (.toks [97]) (.cons (.toks [97]) .nil)), 0) := by
   decide +kernel
 
+/-- … and in grammars with extensions (`EEnv`): a Pratt parser hands the context to its atom and operator parsers, a nested
+    parse carries it into the inner input (`with_input` shares the context reference), and both hand the caller's context back -/
+theorem c15_extensions_ctx_restored (e : EEnv) (n : Nat) (env : Env) (m : Mode) (g : G) (st : St) (hm : env.memoOn = false) :
+    match runE e n env m g st with
+    | .ok _ st' => st'.ctx = st.ctx
+    | .fail st' => st'.ctx = st.ctx
+    | _ => True := by
+  have h := runE_refines e n env m g st hm
+  revert h
+  cases runE e n env m g st <;> cases pegE e n env g st.ss st.ctx <;> simp [Refines]
+  · exact fun h => h.ctx
+  · exact fun h => h.ctx
+
+#print axioms c15_extensions_ctx_restored
 #print axioms c15_ctx_restored
 #print axioms c15_reader
 #print axioms c15_with_ctx
